@@ -99,6 +99,15 @@ CLAIMS = {
         'one-leaf difference, formatted vs pure AST vs re-layout, repeated calls).',
    note='Trusted: Coq kernel/vm_compute; hand model Match.v tied by correspondence; Python re as reference for quantifier sequences (OH3). No axioms.',
    design='DESIGN.md section 4 C17'),
+ 'C06': dict(
+   technique='Coq proof: byte/character coordinate maps (c2b = bytes before the character, strictly monotone, b2c its inverse and containing-character finder, ASCII identity) for all strings; correspondence with astutil.bistr; tokenizer / bracket-matcher / brute-force oracles for locations, pars() and by-location search',
+   text='Proved (closed): for every line (any mix of 1-4 byte code points) the transcribed c2b table is the number of UTF-8 bytes before each character, strictly increasing, b2c inverts it '
+        'at character starts and returns the containing character for interior bytes, and both are the identity on ASCII lines; the AST-position to loc conversion therefore is '
+        'exact. Partial (no theorem): the text-scanning computed locations (_loc_arguments, _loc_comprehension, _loc_withitem, _loc_match_case, _loc_op, decorators), pars() and '
+        'find_*loc are decided per node / per rectangle against CPython positions, tokenize boundaries, a token bracket matcher and a brute-force scan, with identifiers renamed '
+        'to multi-byte in 70% of the programs. A genuine defect found this way (find_contains_loc ignoring decorators) was repaired in /repo.',
+   note='Trusted: Coq kernel/vm_compute; hand model Bistr.v tied by correspondence; tokenize (with multi-line end columns recomputed) and ast byte offsets as reference. No axioms.',
+   design='DESIGN.md section 4 C06'),
 }
 
 checks = []
